@@ -1,8 +1,10 @@
 /-
 Line-protocol driver for the C13 selector / formulation model (format: tools/corr/C13_real.py).
   hist <covers> F … P … T … R … O <n> {op}*         -> ok <map0>|<map1>|…   (choice map after every op)
-  form <covers> F … P … T … R … M <n> {mass width}* ONE <tok> O <n> {op}*
-                                                     -> ok calls=… defaults=… | error ValueError
+  form <covers> F … P … T … R … M <n> {mass width}* ONE <tok> O <n> {op}* G <n|a> <hc> <parent> <child> <ls>
+                                                     -> ok calls=… defaults=… skel=… inexpr=… | error ValueError
+  skel: per (transition k, chain j) the amplitude skeleton  k/j|coef|couplings|phi:theta;…|dynamics factors
+  (builder configuration: use_helicity_couplings and the three naming flags)
 -/
 import Ampverif.Drivers.C01Parse
 import Ampverif.Model.C13Selector
@@ -52,7 +54,19 @@ def histAnswer (covers : Bool) (r : Reaction) (ops : List Op) : String :=
 def encCall (c : DynCall) : String :=
   s!"{c.builder}:{c.parent}:{encName c.vars.inv}:{encName c.vars.m1}:{encName c.vars.m2}:{encName c.vars.phi}:{encName c.vars.theta}:{optS toString c.vars.l}"
 
-def formAnswer (covers : Bool) (r : Reaction) (pinfo : List (Nat × Nat)) (one : Nat) (ops : List Op) : String :=
+def encSemi (xs : List String) : String := if xs.isEmpty then "-" else ";".intercalate xs
+
+def encFactor (c : DynCall) : String :=
+  s!"{c.builder}:{c.parent}:{encName c.vars.inv}:{encName c.vars.m1}:{encName c.vars.m2}:{optS toString c.vars.l}"
+
+def encSkel (x : Nat × Nat × ChainSkel) : String :=
+  let s := x.2.2
+  let hs := s.nodes.filterMap (fun ns => ns.coupling.map encName)
+  let ds := s.nodes.map (fun ns => encName ns.phi ++ ":" ++ encName ns.theta)
+  let fs := (s.dynFactors.filter (fun c => c.builder ≠ 0)).map encFactor
+  s!"{x.1}/{x.2.1}|{optS encName s.coef}|{encSemi hs}|{encSemi ds}|{encSemi fs}"
+
+def formAnswer (covers : Bool) (r : Reaction) (pinfo : List (Nat × Nat)) (one : Nat) (ops : List Op) (cfg : Config) : String :=
   let m := run (ctxOf r) (initialDecays covers r) ops
   let calls := allCalls m r
   if calls.any (fun c => (kindOfId c.builder).needsL && c.vars.l.isNone) then "error ValueError"
@@ -63,7 +77,10 @@ def formAnswer (covers : Bool) (r : Reaction) (pinfo : List (Nat × Nat)) (one :
     let dflt := collect (callWrites one r pi calls)
     let callsS := (calls.filter (fun c => c.builder ≠ 0)).map encCall
     let dfS := dflt.map (fun kv => encName kv.1 ++ "=" ++ toString kv.2)
-    s!"ok calls={encList callsS} defaults={encList dfS}"
+    let skS := (allSkels cfg m r).map encSkel
+    let ieS := (dedup (dynParamsInExpression cfg m r)).map encName
+    let ie := if baseCollision r then "skip" else encList ieS
+    s!"ok calls={encList callsS} defaults={encList dfS} skel={encList skS} inexpr={ie}"
 
 def pRequest : P String := do
   let kind ← tok
@@ -81,7 +98,15 @@ def pRequest : P String := do
     let one ← pNat
     expect "O"
     let ops ← pMany pOp
-    pure (formAnswer covers r pinfo one ops)
+    expect "G"
+    let al ← tok
+    let hc ← pBool
+    let parent ← pBool
+    let child ← pBool
+    let ls ← pBool
+    -- stable ids / scalar initial mass do not enter a chain amplitude or the set of referenced amplitudes:
+    -- fixed here, varied on the real side; the alignment decides which amplitude symbols the intensity sums over
+    pure (formAnswer covers r pinfo one ops ⟨if al = "a" then .axis else .none, none, false, hc, parent, child, ls, [], false⟩)
   | _ => throw s!"bad request {kind}"
 
 partial def loop (h : IO.FS.Stream) : IO Unit := do
